@@ -196,6 +196,15 @@ func runC16(r *Run) {
 			for n := 0; n < fireAfter+secondAfter; n++ {
 				r.S.Park("a.closer2")
 			}
+			if stall && secondAfter%3 != 0 {
+				// in the middle of the stall, after the trigger: a Close frame may be
+				// stuck in the transport at this moment
+				r.S.Sleep(2200 * time.Millisecond)
+			}
+			if secondAfter%2 == 0 {
+				c.CloseNow() // (the usual deferred CloseNow)
+				return
+			}
 			c.Close(websocket.StatusGoingAway, "again")
 		})
 	}
